@@ -150,6 +150,17 @@ func (p *proxyConn) handleMITM(req *http.Request) error {
 	// Successful CONNECT response does not invoke trace.
 	p.traceWroteResponse(res, nil)
 
+	// Wait for the first byte of the tunnel under the idle timeout, as readRequest does for the
+	// next request. The CONNECT request left the read deadline cleared (unless ReadTimeout is set),
+	// so a client that stays silent after the 200 would otherwise never be closed.
+	var idleDeadline time.Time // or zero if none
+	if d := p.idleTimeout(); d > 0 {
+		idleDeadline = time.Now().Add(d)
+	}
+	if deadlineErr := p.conn.SetReadDeadline(idleDeadline); deadlineErr != nil {
+		log.Error(ctx, "can't set idle deadline", "error", deadlineErr)
+	}
+
 	b, err := p.brw.Peek(1)
 	if err != nil {
 		if isClosedConnError(err) {
@@ -158,6 +169,11 @@ func (p *proxyConn) handleMITM(req *http.Request) error {
 			log.Error(ctx, "mitm: failed to peek connection", "host", req.Host, "error", err)
 		}
 		return errClose
+	}
+
+	// The handshake is limited by MITMTLSHandshakeTimeout, the requests that follow by readRequest.
+	if deadlineErr := p.conn.SetReadDeadline(time.Time{}); deadlineErr != nil {
+		log.Error(ctx, "can't clear idle deadline", "error", deadlineErr)
 	}
 
 	// Drain the rest of the buffered data.
